@@ -125,6 +125,9 @@ pub fn scenarios(tier: &str) -> Vec<Scen> {
         add("arch_read_partial", c, 7);
         add("arch_rewrite", c, 7);
         add("tile_get", c, 7);
+        if c == 2 {
+            add("tile_get_big", c, 7);
+        }
         add("dirs_read", c, 7);
     }
     // leaf spill: the seek-back path
@@ -257,6 +260,23 @@ pub fn run(s: &Scen, inp: &Shared, outp: &Shared, p0: u64) -> Outcome {
                 }
                 Ok(())
             }
+            "tile_get_big" => {
+                // tiles beyond 64 KiB, read back through the fragmenting stream and re-saved
+                let input = TStream::new(big_tile_archive(), inp.clone());
+                if is_async {
+                    let mut pm = block_on(PMTiles::from_async_reader(input))?;
+                    for id in [100u64, 106, 112] {
+                        value.extend(block_on(pm.get_tile_by_id_async(id))?.unwrap_or_default());
+                    }
+                    block_on(pm.to_async_writer(&mut out_stream))
+                } else {
+                    let mut pm = PMTiles::from_reader(input)?;
+                    for id in [100u64, 106, 112] {
+                        value.extend(pm.get_tile_by_id(id)?.unwrap_or_default());
+                    }
+                    pm.to_writer(&mut out_stream)
+                }
+            }
             "arch_rewrite" => {
                 // open from an instrumented input, edit, write to the instrumented output
                 let bytes = archive_bytes(s.n, s.comp);
@@ -282,7 +302,7 @@ fn n_ops(c: &Shared) -> usize {
 }
 
 fn writes(s: &Scen) -> bool {
-    matches!(s.kind, "hdr_write" | "dir_write" | "dirs_write" | "arch_write" | "arch_rewrite")
+    matches!(s.kind, "hdr_write" | "dir_write" | "dirs_write" | "arch_write" | "arch_rewrite" | "tile_get_big")
 }
 fn reads(s: &Scen) -> bool {
     !matches!(s.kind, "hdr_write" | "dir_write" | "dirs_write" | "arch_write")
@@ -367,7 +387,7 @@ pub fn drive_sched(seed: u64, tier: &str, stim: Option<&str>, out: &mut Out) {
     for s in scenarios(tier) {
         let (ci, co) = (new_ctl(), new_ctl());
         let base = run(&s, &ci, &co, 0);
-        let big = s.n > 1000;
+        let big = s.n > 1000 || s.kind == "tile_get_big";
         // schedules: every TLC composition for the small scenarios; fixed chunk sizes; seeded random ones
         let mut scheds: Vec<Vec<usize>> = Vec::new();
         if !big {
@@ -377,7 +397,7 @@ pub fn drive_sched(seed: u64, tier: &str, stim: Option<&str>, out: &mut Out) {
                 scheds.push(vec![k]);
             }
         } else {
-            scheds.extend([vec![1], vec![2], vec![7], vec![4096], vec![1, 100, 3]]);
+            scheds.extend([vec![1], vec![2], vec![7], vec![4096], vec![1, 100, 3], vec![1000], vec![65_536, 3]]);
         }
         for _ in 0..(if big { 3 } else { 25 }) {
             let l = 1 + rng.below(6) as usize;
@@ -419,7 +439,7 @@ pub fn drive_sched(seed: u64, tier: &str, stim: Option<&str>, out: &mut Out) {
 pub fn drive_startpos(seed: u64, tier: &str, out: &mut Out) {
     let mut rng = Rng::new(seed ^ 0x5031);
     let mut ctx = Ctx::new();
-    let mut ps: Vec<u64> = vec![0, 1, 10, 127, 4096, 4097];
+    let mut ps: Vec<u64> = vec![0, 1, 10, 127, 4096, 4097, 16384, 70_000];
     for _ in 0..(if tier == "thorough" { 8 } else { 3 }) {
         ps.push(rng.below(20_000));
     }
